@@ -92,8 +92,20 @@ def gen(seed, tier):
             b = copy.deepcopy(a)
         op = rng.choice(["eq", "eq", "eq", "teq", "teq", "isempty", "count", "tcount", "nonempty"])
         case = {"prop": PROP, "op": op, "d": d, "da": da, "a": a, "kind": kind}
+        if kind == "owned" or op in ("teq", "tcount"):
+            r3 = rng.random()
+            if r3 < 0.2:
+                # ranks declared uncompressed (with a declared extent): emptiness, equality, counting and
+                # pruning are about content, not about how a rank is iterated
+                case["fmtA"] = [rng.choice("CU") for _ in range(d + 1)]
+                case["shapeA"] = [n] * (d + 1)
+            elif r3 < 0.4:
+                # the fibers are built with their own default 0, the tensor declares another one
+                case["fibdfltA"] = 0
         if op in ("eq", "teq"):
             case.update({"db": db, "b": b})
+            if "fmtA" in case:
+                case["db"] = da     # an uncompressed rank presents its default: same default on both sides
         if op == "teq":
             ids = [f"R{d - k}" for k in range(d + 1)]
             idsB = list(ids)
@@ -124,12 +136,14 @@ def run(case):
     ft = H.ft()
     d, op = case["d"], case["op"]
     da = case["da"]
-    fa = H.build_fiber(case["a"], d + 1, da)
+    fa = H.build_fiber(case["a"], d + 1, case.get("fibdfltA", da) if case["kind"] == "owned" else da)
     objs, tensors = [fa], []
     ta = tb = None
     if case["kind"] == "owned":
         ta = ft.Tensor.fromFiber(rank_ids=case.get("idsA", [f"R{d - k}" for k in range(d + 1)]), fiber=fa, default=da,
                                  shape=case.get("shapeA"))
+        for k, fm in enumerate(case.get("fmtA", [])):
+            ta.setFormat(ta.getRankIds()[k], fm)
         tensors.append(ta)
         fa = ta.getRoot()
         objs = [fa]
@@ -138,7 +152,11 @@ def run(case):
         fb = H.build_fiber(case["b"], d + 1, case["db"])
         if case["kind"] == "owned":
             tb = ft.Tensor.fromFiber(rank_ids=case.get("idsB", [f"R{d - k}" for k in range(d + 1)]), fiber=fb, default=case["db"],
-                                     shape=case.get("shapeB"))
+                                     shape=(case.get("shapeA") if case.get("fmtA") else case.get("shapeB")))
+            # both sides declare the same ranks uncompressed (see DESIGN, readings: a U-format and a C-format
+            # fiber of equal content are told apart by the unchanged code; C12 does not quantify over formats)
+            for k, fm in enumerate(case.get("fmtA", [])):
+                tb.setFormat(tb.getRankIds()[k], fm)
             tensors.append(tb)
             fb = tb.getRoot()
         objs.append(fb)
@@ -171,7 +189,8 @@ def run(case):
     elif op == "nonempty":
         res = fa.nonEmpty()
         case["impl"] = H.snapshot(res)
-        side["pruned_equals_original"] = bool(res == fa)
+        if "U" not in case.get("fmtA", []):
+            side["pruned_equals_original"] = bool(res == fa)
     after = ([H.snapshot(o) for o in objs], [_ranks(t) for t in tensors])
     side["operands_unchanged"] = before[0] == after[0]
     side["rank_lists_unchanged"] = before[1] == after[1]
